@@ -293,6 +293,9 @@ pub fn subquery_rules() -> Vec<Rewrite> { vec![
         "(apply inner ?left (hashagg ?keys ?aggs ?right))" =>
         // ?new_keys = ?left || ?keys
         { extract_key("(hashagg ?new_keys ?aggs (apply inner ?left ?right))") }
+        // an uncorrelated subquery is a plain join (rule 1): grouping by the left row would
+        // collapse duplicate left rows
+        if depend_on("?right", "?left")
         // FIXME: this rule is correct only if
         // 1. all aggregate functions satisfy: agg({}) = agg({null})
         // 2. the left table has a key
@@ -302,6 +305,9 @@ pub fn subquery_rules() -> Vec<Rewrite> { vec![
         "(apply inner ?left (agg ?aggs ?right))" =>
         // ?new_keys = ?left
         { extract_key("(hashagg ?new_keys ?aggs (apply left_outer ?left ?right))") }
+        // an uncorrelated subquery is a plain join (rule 1): grouping by the left row would
+        // collapse duplicate left rows
+        if depend_on("?right", "?left")
         // FIXME: this rule is correct only if
         // 1. all aggregate functions satisfy: agg({}) = agg({null})
         // 2. the left table has a key
